@@ -245,7 +245,11 @@ func GenStructPair(t *rapid.T, pf Profile, idx int) (src, dst StructDecl) {
 				continue
 			}
 			at := func(home, kind string) TypeAtom { return TypeAtom{Home: home, Kind: kind} }
-			switch rapid.IntRange(0, 2).Draw(t, "targeted") {
+			switch rapid.IntRange(0, 3).Draw(t, "targeted") {
+			case 3:
+				// slices of a type the home package imports only through ext
+				addS(mk(name, at("ext.Trail", "struct-imported-with-indirect-slices")))
+				addD(mk(name, at(rapid.SampledFrom([]string{"ext.Trail2", "ext.Trail2", "ext.Trail"}).Draw(t, "trailD"), "struct-imported-with-indirect-slices")))
 			case 2:
 				// element conversion into a type of a package imported as "e" (under :typecast the loop reads e.Code(<element>))
 				if rapid.Bool().Draw(t, "aliasE") {
@@ -490,6 +494,10 @@ func knownMembers(home string, forSource bool) []member {
 		ms = []member{{"At", "int"}, {"rev", "int"}}
 	case "Stamp2":
 		ms = []member{{"At", "int64"}, {"rev", "int"}}
+	case "ext.Trail":
+		ms = []member{{"N", "int"}}
+	case "ext.Trail2":
+		ms = []member{{"N", "int64"}}
 	case "ext.Record":
 		ms = []member{{"N", "int"}, {"Stamp.At", "int"}}
 	case "ext.Record2":
